@@ -1,7 +1,13 @@
 // Package props holds the per-property checks.
 package props
 
-import "verif/core"
+import (
+	"verif/core"
+	"verif/val"
+)
+
+// documentedErrs are the error classes the Readme documents.
+var documentedErrs = map[string]bool{val.ENil: true, val.EType: true, val.EZeroDiv: true, val.EIndex: true, val.EArity: true, val.EConversion: true, val.ERead: true}
 
 var registry = map[string]*core.Property{}
 
